@@ -26,7 +26,8 @@
 (***************************************************************************)
 EXTENDS Ensemble, Json, IOUtils, TLCExt
 
-G == INSTANCE Grid WITH Dims <- {1}, MaxBins <- 1, Bounds <- {}, dim <- 0, nbins <- << >>, lo <- << >>, hi <- << >>
+G == INSTANCE Grid WITH Dims <- {1}, MaxBins <- 1, BinChoices <- {1}, Bounds <- {}, Scales <- {0},
+                       dim <- 0, nbins <- << >>, lo <- << >>, hi <- << >>, sc <- 0
 
 Traces == JsonDeserialize(IOEnv.TRACE_FILE)
 
